@@ -66,7 +66,17 @@ fn get_mut<'a>(v: &'a mut Value, path: &[Step]) -> Option<&'a mut Value> {
 
 /// Near-collision rewrite of a string.
 fn edit_string(s: &str, kind: u8, arg: &str) -> String {
-    match kind % 12 {
+    match kind % 16 {
+        12 => format!("./{}", s),
+        13 => {
+            if s.contains('/') {
+                s.replacen('/', "//", 1)
+            } else {
+                format!("{}/.", s)
+            }
+        }
+        14 => format!("{}/", s),
+        15 => format!("x/../{}", s),
         0 => format!("{}{}", s, if arg.is_empty() { "x" } else { arg }),
         1 => {
             if s.contains('\n') {
@@ -135,13 +145,13 @@ pub fn apply_edit(v: &Value, e: &TreeEdit) -> Option<(Value, String)> {
         SiteKind::Str => {
             let slot = get_mut(&mut out, &path)?;
             let s = slot.as_str()?.to_string();
-            if e.kind % 16 == 15 {
+            if e.kind % 32 == 31 {
                 // string -> number type change when it looks like one
                 *slot = s.parse::<i64>().map(Value::from).unwrap_or(Value::String(format!("{}0", s)));
                 what = format!("str-retype@{}", describe(&path));
             } else {
                 *slot = Value::String(edit_string(&s, e.kind, &e.arg));
-                what = format!("str-edit{}@{}", e.kind % 12, describe(&path));
+                what = format!("str-edit{}@{}", e.kind % 16, describe(&path));
             }
         }
         SiteKind::Num => {
